@@ -16,9 +16,13 @@ COMMON_TB = [
     "read-only views of left / writeList / isWAdded / closed, an entry point for flush)",
     "K1 (modelled, not verified): write/writev/sendfile returning k delivered exactly the first k bytes, in order; a non-blocking "
     "stream socket never accepts 0 bytes of a non-empty write; sendfile returns 0 only at end of file and queued files do not shrink",
-    "atomicity: each of Write/Writev/Sendfile/flush/Close is one atomic step of the model because the code holds Conn.mux around it; "
-    "that the lock is held is read off the code, not checked by this harness (single goroutine on simulated descriptors); the real-socket "
-    "tier runs writers outside the poller goroutine against the poller's flush",
+    "atomicity: each of Write/Writev/Sendfile/flush/Close is one atomic step of the model because the code runs it in ONE critical "
+    "section of Conn.mux. This is what the concurrent tier of cmd/connio checks on the real code under the cooperative scheduler "
+    "(overlay verifsched; every Lock of Conn.mux and the OnWrittenSize handler are scheduling points): exactly one acquisition of "
+    "Conn.mux per call, the observed results of 2-3 goroutines' calls equal the sequential model's for some order consistent with "
+    "real time (linearizability), left = queued bytes <= MaxWriteBufferSize whenever the lock is released, and the received stream "
+    "is a sequence of whole accepted calls. The theorems c01_concurrent_calls / c17_concurrent_calls lift the sequential theorems to "
+    "every merge of the goroutines' programs under that assumption; schedules are sampled (seeded), not enumerated",
     "Go harness cmd/connio (generator, position-tagged payloads, the shim's record of accepted bytes, temp files read with pread by the "
     "shim's sendfile)",
 ]
@@ -35,7 +39,7 @@ MODELLED = [
 
 
 def _harness(c):
-    args = ["-n", n(c, 3000, 150000), "-real", n(c, 3, 24)]
+    args = ["-n", n(c, 3000, 150000), "-conc", n(c, 1500, 60000), "-real", n(c, 3, 24)]
     c.harness("connio", args, overlay=True, model=MODEL, timeout=3000)
 
 
@@ -43,8 +47,8 @@ def c01(c):
     c.coq(["connio"], "C01", "ConnIOC")
     c.trusted += COMMON_TB
     c.assumptions += MODELLED + [
-        "c01_contiguous is the sequential corollary (one call's bytes are contiguous between earlier and later calls); freedom from "
-        "interleaving under concurrent writers additionally rests on the atomicity assumption above",
+        "c01_contiguous / c01_concurrent_calls: one call's bytes are contiguous between earlier and later calls for every merge of "
+        "concurrent callers' programs; that real executions are such merges is the atomicity assumption above, checked by the concurrent tier",
     ]
     _harness(c)
     c.finish()
